@@ -5,7 +5,7 @@ CONSTANTS
   Quit = 4
   Stay = FALSE
   WaitsForPager = TRUE
-  RetriesShort = FALSE
-  RetriesEINTR = TRUE
-INVARIANTS AllDelivered
+  RetriesShort = TRUE
+  RetriesEINTR = FALSE
+INVARIANTS Quiet
 CHECK_DEADLOCK FALSE
